@@ -76,7 +76,7 @@ func threadCPU() int64 {
 	if err := syscall.Getrusage(1 /* RUSAGE_THREAD */, &ru); err != nil {
 		return 0
 	}
-	return (ru.Utime.Sec+ru.Stime.Sec)*1e9 + (ru.Utime.Usec+ru.Stime.Usec)*1e3
+	return (int64(ru.Utime.Sec)+int64(ru.Stime.Sec))*1e9 + (int64(ru.Utime.Usec)+int64(ru.Stime.Usec))*1e3
 }
 
 func allocBound(n int) uint64 { return uint64(allocSlack + allocPerByte*n) }
